@@ -191,7 +191,13 @@ class AliasMixin:
         # (in this example, X -> Z, Y -> Z)
         aliases = copy.deepcopy(self.ALIASES)
 
-        while True:
+        # Drop names that point to themselves up front: they can never be
+        # shortened (and would otherwise keep the loop below going for ever)
+        aliases = {k: v for k, v in aliases.items() if k != v}
+
+        # Each pass shortens every chain by at least one link, so an acyclic
+        # mapping needs at most `len(aliases)` passes
+        for _ in range(len(aliases) + 1):
             # Check for chained aliases by testing to see if there are any
             # shared names between the keys and values. If so, there is at
             # least one link that can still be shortened
@@ -206,6 +212,12 @@ class AliasMixin:
             # leave X -> Z
             # Repeating the loop carries out successive substitution
             aliases = {k: aliases.get(v, v) for k, v in aliases.items()}
+
+        else:
+            raise ValueError(
+                'Found circular reference(s) in `ALIASES`: '
+                'unable to resolve aliases to underlying model variables'
+            )
 
         # Remove any variables that point to themselves and then store
         aliases = {k: v for k, v in aliases.items() if k != v}
